@@ -89,13 +89,17 @@ PALETTES = [
     {"name": "nucTA", "type": "nuc", "letters": "TA", "msa": (6, 2, -3)},
     {"name": "protAC", "type": "prot", "letters": "AC", "msa": (4, 9, -1)},
 ]
+N_SEED_PALETTES = len(PALETTES)
+# not selected by the seed: a 300-symbol alphabet (uint16 sequence codes) whose two letters have the codes 7 and 299
+GEN_PAL = len(PALETTES)
+PALETTES.append({"name": "gen300", "type": "gen", "letters": (7, 299), "msa": (5, 3, -4), "size": 300})
 SCORE_GAPS = [-3, -10, [-5, -1], [-6, -3]]
 MSA_GAPS = [-10, -2, [-5, -1]]
 IDENT_MODES = ("all", "not_terminal", "shortest")
 
 
 def pal_for(seed):
-    return seed % len(PALETTES)
+    return seed % N_SEED_PALETTES
 
 
 def bounds(tier):
@@ -148,18 +152,25 @@ class Env:
         p = PALETTES[pi]
         self.pi = pi
         self.p = p
-        self.a, self.b = p["letters"]
-        self.cls = bseq.NucleotideSequence if p["type"] == "nuc" else bseq.ProteinSequence
-        self.alphabet = self.cls(self.a).get_alphabet()
+        if p["type"] == "gen":
+            # single-character symbols, so that gapped strings stay readable by the model
+            symbols = [chr(0x4E00 + i) for i in range(p["size"])]
+            alphabet = bseq.Alphabet(symbols)
+            self.a, self.b = symbols[p["letters"][0]], symbols[p["letters"][1]]
+            self.seq_type = bseq.GeneralSequence
+            self.cls = lambda text, _a=alphabet: bseq.GeneralSequence(_a, list(text))
+            self.alphabet = alphabet
+        else:
+            self.a, self.b = p["letters"]
+            self.cls = bseq.NucleotideSequence if p["type"] == "nuc" else bseq.ProteinSequence
+            self.seq_type = self.cls
+            self.alphabet = self.cls(self.a).get_alphabet()
         syms = list(self.alphabet.get_symbols())
         self.code_of = {s: i for i, s in enumerate(syms)}
         k = len(syms)
-        asym = np.zeros((k, k), dtype=np.int32)
-        sym = np.zeros((k, k), dtype=np.int32)
-        for i in range(k):
-            for j in range(k):
-                asym[i, j] = self._asym(i, j)
-                sym[i, j] = self._sym(i, j)
+        ii, jj = np.meshgrid(np.arange(k), np.arange(k), indexing="ij")
+        asym = ((3 * ii + 5 * jj + ii * jj) % 9 - 4).astype(np.int32)
+        sym = (((ii + jj) * 2 + ii * jj) % 9 - 4).astype(np.int32)
         self.cmat_asym = balign.SubstitutionMatrix(self.alphabet, self.alphabet, asym)
         self.cmat_sym = balign.SubstitutionMatrix(self.alphabet, self.alphabet, sym)
         saa, sbb, sab = p["msa"]
@@ -203,6 +214,12 @@ class Env:
     def fresh(self, s):
         return self.cls(s)
 
+    def text(self, seq):
+        """the symbols of a biotite sequence as one string (str() of a GeneralSequence puts ', ' between symbols)"""
+        if self.p["type"] == "gen":
+            return "".join(seq.symbols)
+        return str(seq)
+
 
 def env(pi):
     e = _ENVS.get(pi)
@@ -238,6 +255,8 @@ def trace_class(seqs, trace):
     n = len(seqs)
     if not trace:
         return "no_columns"
+    if any(len(x) == 0 for x in seqs):
+        return "empty_sequence"
     tr = M.terminal_range(trace, n)
     if tr is None:
         return "absent_row"
@@ -264,7 +283,7 @@ def fnum(x):
 class Bat:
     """One case = (palette, sequences, trace); collects counts and reports violations."""
 
-    def __init__(self, ctx, e, seqs, trace, origin="enum"):
+    def __init__(self, ctx, e, seqs, trace, origin="enum", flavour="int64"):
         import biotite.sequence.align as balign
 
         self.ctx, self.e = ctx, e
@@ -275,7 +294,10 @@ class Bat:
         self.case = {"kind": "conv", "pal": e.pi, "seqs": list(self.seqs), "trace": [list(c) for c in self.trace]}
         self.sobj = [e.seq(s) for s in self.seqs]
         self.arr = np.array(self.trace, dtype=np.int64).reshape(len(self.trace), self.n)
-        self.aln = balign.Alignment(self.sobj, self.arr.copy())
+        self.flavour = flavour
+        if flavour != "int64":
+            self.case["flavour"] = flavour
+        self.aln = balign.Alignment(self.sobj, make_trace_array(self.arr, flavour))
         self.evs = 0
         self.nontrivial = self.cls.split("_", 1)[1] != "ungapped"
         self.tr = M.terminal_range(self.trace, self.n) if self.trace else None
@@ -300,12 +322,39 @@ class Bat:
     def intact(self, site, extra=None):
         """the source alignment must not be changed by a conversion"""
         t = obs_trace(self.aln.trace, self.n)
-        if t != self.trace or [str(s) for s in self.aln.sequences] != list(self.seqs):
+        if t != self.trace or [self.e.text(s) for s in self.aln.sequences] != list(self.seqs):
             self.bad(site, "operand_mutated", "conversion changed the source alignment", [self.seqs, self.trace],
-                     [[str(s) for s in self.aln.sequences], t], extra)
+                     [[self.e.text(s) for s in self.aln.sequences], t], extra)
             import biotite.sequence.align as balign
 
-            self.aln = balign.Alignment(self.sobj, self.arr.copy())
+            self.aln = balign.Alignment(self.sobj, make_trace_array(self.arr, self.flavour))
+
+
+TRACE_FLAVOURS = ("int32", "int16", "fortran", "strided_rows", "strided_cols", "readonly")
+
+
+def make_trace_array(arr, flavour):
+    """the same trace as another kind of ndarray"""
+    m, n = arr.shape
+    if flavour == "int64":
+        return arr.copy()
+    if flavour in ("int32", "int16"):
+        return arr.astype(flavour)
+    if flavour == "fortran":
+        return np.asfortranarray(arr)
+    if flavour == "strided_rows":
+        big = np.full((2 * m, n), -7, dtype=np.int64)
+        big[::2] = arr
+        return big[::2]
+    if flavour == "strided_cols":
+        big = np.full((m, 2 * n), -7, dtype=np.int64)
+        big[:, ::2] = arr
+        return big[:, ::2]
+    if flavour == "readonly":
+        out = arr.copy()
+        out.setflags(write=False)
+        return out
+    raise ValueError(flavour)
 
 
 # ---------------------------------------------------------------------------
@@ -338,13 +387,13 @@ def check_result_alignment(b, site, res, exp_trace, exp_seqs, extra=None, mode_p
         return False
     seqs = r.sequences
     if len(seqs) != len(exp_seqs) or any(so is not b.e._seqs.get(es) for so, es in zip(seqs, exp_seqs)):
-        got = [str(s) for s in seqs]
+        got = [b.e.text(s) for s in seqs]
         if got != list(exp_seqs):
             b.bad(site, mode_prefix + "sequences_mismatch", "result sequences differ", list(exp_seqs), got, ex(), cls)
             return False
         for s in seqs:
-            if type(s) is not b.e.cls:
-                b.bad(site, mode_prefix + "sequence_type", "result sequence has another type", b.e.cls.__name__,
+            if type(s) is not b.e.seq_type:
+                b.bad(site, mode_prefix + "sequence_type", "result sequence has another type", b.e.seq_type.__name__,
                       type(s).__name__, ex(), cls)
                 return False
     return True
@@ -363,7 +412,28 @@ def part_views(b):
     elif list(r[1]) != exp_g:
         b.bad("get_gapped_sequences", "mismatch", "gapped strings differ from the model", exp_g, list(r[1]))
     ctx.outcome(("g", tuple(exp_g)))
-    if b.trace:
+    # str(): blocks of one line per row; line k of all blocks joined gives row k back
+    # (not for the 300-symbol alphabet: Alphabet.is_letter_alphabet() only takes ASCII symbols)
+    r = call(str, b.aln) if e.p["type"] != "gen" else ("skip",)
+    b.evs += 1
+    if r[0] == "skip":
+        b.evs -= 1
+    elif r[0] != "ok":
+        b.bad("Alignment.__str__", "raises_" + r[1], r[2], exp_g, list(r))
+    elif b.trace:
+        rows = [""] * b.n
+        okshape = True
+        for block in r[1].split("\n\n"):
+            lines = block.split("\n")
+            if len(lines) != b.n:
+                okshape = False
+                break
+            for k, line in enumerate(lines):
+                rows[k] += line
+        if not okshape or rows != exp_g:
+            b.bad("Alignment.__str__", "rows_mismatch", "the rows printed by str() are not the gapped sequences", exp_g,
+                  r[1][:300])
+    if b.trace and b.n >= 2:
         exp_t = M.rebased(b.trace, b.n)
         r = call(balign.Alignment.trace_from_strings, exp_g)
         b.evs += 1
@@ -768,9 +838,10 @@ def part_fasta(b):
     from biotite.sequence.io import fasta
 
     e, ctx = b.e, b.ctx
-    if not b.trace:
+    if not b.trace or e.p["type"] == "gen":
         return
     names = ["s%d" % i for i in range(b.n)]
+    unspec = "absent_row" in b.cls or "empty_sequence" in b.cls
     exp_g = M.gapped_strings(b.seqs, b.trace)
     exp_t = M.rebased(b.trace, b.n)
     exp_s = M.covered(b.seqs, b.trace)
@@ -785,13 +856,14 @@ def part_fasta(b):
         if gapchar != "-":
             text = "\n".join(line if line.startswith(">") else line.replace("-", gapchar) for line in text.split("\n"))
         g = fasta.FastaFile.read(io.StringIO(text))
-        return entries, text, fasta.get_alignment(g, seq_type=e.cls)
+        # a single row cannot be read back as an alignment (documented refusal of trace_from_strings)
+        return entries, text, (fasta.get_alignment(g, seq_type=e.cls) if b.n >= 2 else None)
 
     for gapchar in ("-", "_"):
         r = call(go, gapchar)
         if r[0] != "ok":
             b.evs += 1
-            if "absent_row" in b.cls:
+            if unspec:
                 ctx.count("unspecified")
             else:
                 b.bad("fasta_round_trip", "raises_" + r[1], r[2], exp_g, list(r), {"gap_char": gapchar})
@@ -804,21 +876,24 @@ def part_fasta(b):
             continue
         parsed = M.fasta_parse(text)
         want = [(h, s.replace("-", gapchar)) for h, s in zip(names, exp_g)]
-        if parsed != want and not ("absent_row" in b.cls):
+        if parsed != want and not unspec:
             b.bad("fasta.write", "text_mismatch", "written FASTA text does not hold the gapped rows", want, parsed)
             continue
-        if "absent_row" in b.cls:
+        if unspec:
             ctx.count("unspecified")
             continue
         ctx.count("accepted")
+        if b.n < 2:
+            continue
         check_result_alignment(b, "fasta_round_trip", ("ok", aln2), exp_t, exp_s, {"gap_char": gapchar})
     b.intact("fasta")
 
 
-def run_battery(ctx, e, seqs, trace, tier, struct_level=True, letter_level=True, getitem=True, cigar_letters=True):
+def run_battery(ctx, e, seqs, trace, tier, struct_level=True, letter_level=True, getitem=True, cigar_letters=True,
+                flavour="int64"):
     """struct_level: operations whose result does not depend on the letters; letter_level: the others.
     cigar_letters: run the '='/'X' CIGAR options for this letter assignment."""
-    b = Bat(ctx, e, seqs, trace)
+    b = Bat(ctx, e, seqs, trace, flavour=flavour)
     if letter_level:
         part_views(b)
         part_identity(b)
@@ -839,10 +914,12 @@ def run_battery(ctx, e, seqs, trace, tier, struct_level=True, letter_level=True,
 # ---------------------------------------------------------------------------
 # pair / triple families
 # ---------------------------------------------------------------------------
-def structures(lens, allow_empty=True, full_only=False):
+def structures(lens, allow_empty=True, full_only=False, with_empty_trace=False):
     """every (ranges, trace) for rows of the given lengths; at most one row may be absent;
     full_only: only end-to-end traces (no clipped end, no absent row)"""
     per_row = [[(0, n)] for n in lens] if full_only else [M.subranges(n, allow_empty) for n in lens]
+    if with_empty_trace:
+        yield None, ()
     for ranges in itertools.product(*per_row):
         if sum(1 for a, z in ranges if a == z) > 1:
             continue
@@ -883,7 +960,8 @@ def run_family(shard, ctx):
     words = [[e.letters(w) for w in ws] for ws in abstract]
     cig = None if len(lens) == 2 else cigar_letter_words(lens)
     idx = -1
-    for ranges, t in structures(lens, full_only=shard.get("full_only", False)):
+    for ranges, t in structures(lens, full_only=shard.get("full_only", False),
+                                with_empty_trace=shard.get("with_empty_trace", False)):
         idx += 1
         if idx % parts != part:
             continue
@@ -1331,6 +1409,461 @@ def run_msa(shard, ctx):
             ctx.sample({"msa_words": list(tup)})
 
 
+
+# ---------------------------------------------------------------------------
+# audit families: long traces, array flavours, argument flavours, many rows, reuse / error paths, alphabet sizes
+# ---------------------------------------------------------------------------
+LONG_LENGTHS = (9, 10, 11, 69, 70, 71, 79, 80, 81, 99, 100, 101, 140, 141, 160, 161)
+
+
+def long_traces(total):
+    """listed two-row traces with `total` columns: (name, reference length, segment length, trace)"""
+    out = []
+    out.append(("diagonal", total, total, tuple((i, i) for i in range(total))))
+    # reference offset 10, segment clips 12 / 10, a deletion run and an insertion run of >= 10 columns
+    body = []
+    r, q = 10, 12
+    runs = max(total - 21, 2)
+    a = runs // 3
+    for _ in range(a):
+        body.append((r, q)); r += 1; q += 1
+    for _ in range(10):
+        body.append((r, -1)); r += 1
+    for _ in range(runs - 2 * a):
+        body.append((r, q)); r += 1; q += 1
+    for _ in range(11):
+        body.append((-1, q)); q += 1
+    for _ in range(a):
+        body.append((r, q)); r += 1; q += 1
+    out.append(("gapped_clipped", r + 3, q + 10, tuple(body)))
+    # terminal gaps of >= 10 columns on both sides
+    body = [(i, -1) for i in range(10)] + [(10 + i, i) for i in range(max(total - 21, 1))]
+    k = max(total - 21, 1)
+    body += [(-1, k + i) for i in range(11)]
+    out.append(("terminal_runs", 10 + k, k + 11, tuple(body)))
+    return out
+
+
+def run_long(shard, ctx):
+    e = env(shard["pal"])
+    for total in LONG_LENGTHS:
+        for name, n_ref, n_seg, t in long_traces(total):
+            ref = e.letters("".join("ab"[(i * i + i // 3) % 2] for i in range(n_ref)))
+            seg = e.letters("".join("ba"[(i + i // 2) % 2] for i in range(n_seg)))
+            if not ctx.journal(json.dumps({"kind": "conv", "pal": e.pi, "seqs": [ref, seg], "trace": t})):
+                continue
+            ctx.count("long_traces")
+            b = Bat(ctx, e, (ref, seg), t)
+            part_views(b)
+            part_terminal(b)
+            part_identity(b)
+            part_score(b)
+            part_fasta(b)
+            part_cigar(b, (True, False))
+            b.done()
+
+
+def run_flavour(shard, ctx):
+    """every trace of the listed lengths as int32 / int16 / Fortran / strided / read-only array (one letter
+    assignment), and - for the 300-symbol alphabet - every letter assignment with the plain array"""
+    e = env(shard["pal"])
+    lens = tuple(shard["lens"])
+    total = sum(lens)
+    word = "".join("ab"[(i + i // 3) % 2] for i in range(total))
+    seqs, p = [], 0
+    for n in lens:
+        seqs.append(e.letters(word[p: p + n]))
+        p += n
+    allwords = [[e.letters(w) for w in ws] for ws in letter_words(lens)] if e.p["type"] == "gen" else []
+    for ranges, t in structures(lens):
+        ctx.count("structures")
+        for fl in TRACE_FLAVOURS:
+            if not ctx.journal(json.dumps({"kind": "conv", "pal": e.pi, "seqs": seqs, "trace": t, "flavour": fl})):
+                continue
+            run_battery(ctx, e, seqs, t, ctx.tier, getitem=False, flavour=fl)
+        if ctx.journal(json.dumps({"kind": "argflav", "pal": e.pi, "seqs": seqs, "trace": t})):
+            check_arg_flavours(ctx, e, seqs, t)
+        for k, ws in enumerate(allwords):
+            if ctx.journal(json.dumps({"kind": "conv", "pal": e.pi, "seqs": ws, "trace": t})):
+                run_battery(ctx, e, ws, t, ctx.tier, struct_level=k == 0, getitem=False)
+
+
+def check_arg_flavours(ctx, e, seqs, trace):
+    """the same call with another flavour of an argument must give the same (model) result and leave the
+    argument unchanged"""
+    import biotite.sequence.align as balign
+    from biotite.sequence.io import fasta
+
+    b = Bat(ctx, e, seqs, trace)
+    b.case["kind"] = "argflav"
+    n, m = b.n, len(b.trace)
+    # --- score: gap penalty as numpy integer / list / tuple of numpy integers
+    mat, sub = (e.cmat_asym, e.sub_asym) if n == 2 else (e.cmat_sym, e.sub_sym)
+    for name, gap, g in (("npint", np.int64(-3), -3), ("list", [-5, -1], (-5, -1)),
+                         ("nptuple", (np.int64(-5), np.int32(-1)), (-5, -1))):
+        exp = M.score_values(b.seqs, b.trace, sub, g, True)
+        r = call(balign.score, b.aln, mat, gap, True)
+        b.evs += 1
+        if r[0] != "ok":
+            b.bad("score", "raises_%s_gap_%s" % (r[1], name), r[2], sorted(exp), list(r))
+        elif fnum(r[1]) not in {float(x) for x in exp}:
+            b.bad("score", "mismatch_gap_" + name, "score depends on the flavour of the gap penalty", sorted(exp), fnum(r[1]))
+    # --- indexing with other array flavours
+    if m:
+        ar = np.arange(m)
+        bits = np.array([i % 2 == 0 for i in range(m)])
+        strided = np.zeros(2 * m, dtype=bool)
+        strided[::2] = bits
+        ro = bits.copy()
+        ro.setflags(write=False)
+        idx8 = np.array([i for i in range(m) if i % 2 == 0], dtype=np.uint8)
+        for name, index in (("strided_mask", strided[::2]), ("readonly_mask", ro), ("uint8_array", idx8),
+                            ("range", range(0, m, 2)), ("int16_array_rows", (slice(None), np.arange(n, dtype=np.int16)[::-1]))):
+            if isinstance(index, tuple):
+                cpos, rpos = list(range(m)), list(range(n - 1, -1, -1))
+            else:
+                cpos, rpos = [int(x) for x in ar[bits]], list(range(n))
+            try:
+                res = ("ok", b.aln[index])
+            except Exception as ex:  # noqa: BLE001
+                res = ("exc", type(ex).__name__, str(ex)[:200])
+            if name == "range" and res[0] != "ok":
+                b.evs += 1
+                ctx.count("unspecified")
+                continue
+            check_result_alignment(b, "Alignment.__getitem__", res, M.index_trace(b.trace, n, cpos, rpos),
+                                   [b.seqs[r] for r in rpos], {"index": name}, mode_prefix=name + "_", cls="%drow" % n)
+    # --- trace_from_strings / FASTA names as tuple, ndarray
+    g = M.gapped_strings(b.seqs, b.trace)
+    if m and n >= 2:
+        r = call(balign.Alignment.trace_from_strings, tuple(g))
+        b.evs += 1
+        if r[0] != "ok" or obs_trace(r[1], n) != M.rebased(b.trace, n):
+            b.bad("trace_from_strings", "tuple_argument", "a tuple of strings is not read like a list", None, repr(r)[:200])
+    if m and e.p["type"] != "gen":
+        for name, names in (("tuple", tuple("s%d" % i for i in range(n))), ("ndarray", np.array(["s%d" % i for i in range(n)]))):
+            keep = list(names)
+            f = fasta.FastaFile()
+            r = call(fasta.set_alignment, f, b.aln, names)
+            b.evs += 1
+            if r[0] != "ok":
+                b.bad("fasta.set_alignment", "raises_%s_names_%s" % (r[1], name), r[2])
+            elif [(str(h), v) for h, v in f.items()] != list(zip(["s%d" % i for i in range(n)], g)) or list(names) != keep:
+                b.bad("fasta.set_alignment", "names_" + name, "entries differ for another flavour of the names",
+                      list(zip(keep, g)), list(f.items()))
+    # --- CIGAR writer: introns / indices in other flavours; reader: operations and position in other flavours
+    for ri, si in itertools.permutations(range(n), 2):
+        pair_cols = tuple((c[ri], c[si]) for c in b.trace)
+        base = M.cigar_expected(pair_cols, b.seqs[ri], b.seqs[si], include_terminal_gaps=True)
+        if base["status"] != "ok":
+            continue
+        runs = M.deletion_runs(base["columns"])
+        exp = M.cigar_expected(pair_cols, b.seqs[ri], b.seqs[si], tuple(runs), False, False, True)
+        variants = [("np_indices", [tuple(x) for x in runs], np.int64(ri), np.int32(si))]
+        if runs:
+            arr_in = np.array(runs, dtype=np.int32)
+            variants.append(("ndarray_introns", arr_in, ri, si))
+            variants.append(("nested_list_introns", [list(x) for x in runs], ri, si))
+            variants.append(("tuple_introns", tuple(tuple(x) for x in runs), ri, si))
+        written = None
+        for name, introns, r_i, s_i in variants:
+            keep = np.array(introns).copy() if len(introns) else None
+            r = call(balign.write_alignment_to_cigar, b.aln, reference_index=r_i, segment_index=s_i, introns=introns,
+                     include_terminal_gaps=True)
+            b.evs += 1
+            if r[0] != "ok":
+                b.bad("write_alignment_to_cigar", "raises_%s_%s" % (r[1], name), r[2], exp["expanded"], list(r))
+                continue
+            try:
+                dec = decode_written(r[1], True)
+            except (ValueError, KeyError) as ex:
+                dec = "undecodable: %s" % ex
+            if dec != exp["expanded"]:
+                b.bad("write_alignment_to_cigar", "mismatch_" + name, "CIGAR depends on the flavour of an argument",
+                      exp["expanded"], dec)
+                continue
+            if keep is not None and not np.array_equal(np.array(introns), keep):
+                b.bad("write_alignment_to_cigar", "argument_mutated_" + name, "the introns argument was changed")
+            written = r[1]
+        if written is None:
+            continue
+        ops = M.cigar_parse(written)
+        base_arr = np.array([[M.OP_CODE[o], k] for o, k in ops], dtype=np.int64)
+        strided = np.zeros((2 * len(ops), 2), dtype=np.int64)
+        strided[::2] = base_arr
+        ro = base_arr.copy()
+        ro.setflags(write=False)
+        forms = [("int32", base_arr.astype(np.int32)), ("uint8", base_arr.astype(np.uint8)),
+                 ("fortran", np.asfortranarray(base_arr)), ("strided", strided[::2]), ("readonly", ro),
+                 ("nested_list", base_arr.tolist()),
+                 ("enum_tuples", [(balign.CigarOp(int(o)), int(k)) for o, k in base_arr.tolist()])]
+        robj, sobj = b.sobj[ri], e.seq(exp["stored_seg"])
+        for name, arg in forms:
+            keep = np.array(arg).copy()
+            for pname, pos in (("int", exp["position"]), ("np.int64", np.int64(exp["position"])),
+                               ("np.uint8", np.uint8(exp["position"]))):
+                rr = call(balign.read_alignment_from_cigar, arg, pos, robj, sobj)
+                check_result_alignment(b, "read_alignment_from_cigar", rr, exp["read_cols"], [b.seqs[ri], exp["stored_seg"]],
+                                       {"form": name, "position": pname}, mode_prefix="%s_%s_" % (name, pname.replace(".", "")),
+                                       cls="%drow_argument_flavour" % n)
+            if not np.array_equal(np.array(arg), keep):
+                b.bad("read_alignment_from_cigar", "argument_mutated_" + name, "the operation array was changed")
+    # --- aliasing of the constructor argument (unspecified: counted)
+    arr = b.arr.copy()
+    a2 = balign.Alignment(list(b.sobj), arr)
+    ctx.count("unspecified")
+    ctx.count("constructor_keeps_reference_to_trace_argument" if a2.trace is arr else "constructor_copies_trace_argument")
+    b.intact("argument_flavours")
+    b.done()
+
+
+def many_words(n):
+    return [SEQ_WORDS[(5 * i + 3) % len(SEQ_WORDS)] for i in range(n)]
+
+
+def caterpillar(n, reverse=False):
+    order = list(range(n))
+    if reverse:
+        order.reverse()
+    t = order[0]
+    for x in order[1:]:
+        t = (t, x)
+    return t
+
+
+def balanced(items):
+    if len(items) == 1:
+        return items[0]
+    mid = len(items) // 2
+    return (balanced(items[:mid]), balanced(items[mid:]))
+
+
+def run_many(shard, ctx):
+    """MSAs of 9, 10, 11 sequences (index width changes); the result goes through the conversion battery"""
+    import biotite.sequence.align as balign
+
+    e = env(shard["pal"])
+    for n in (9, 10, 11):
+        words = many_words(n)
+        trees = [None, caterpillar(n), caterpillar(n, True), balanced(list(range(n))), tuple(range(n))]
+        for gap in (MSA_GAPS[1], MSA_GAPS[2]):
+            for tp in (True, False):
+                for ti, tr in enumerate(trees):
+                    case = {"kind": "msa", "pal": e.pi, "words": words, "gap": gap, "tp": tp,
+                            "dist": (None if ti % 2 == 0 else "chain"), "tree": tr, "share": True}
+                    if ctx.journal(json.dumps(case)):
+                        check_msa(ctx, case)
+        # the 11-row (and 9, 10) alignment itself: battery
+        seqs = [e.letters(w) for w in words]
+        r = call(balign.align_multiple, [e.seq(x) for x in seqs], e.mmat, gap_penalty=-2)
+        if r[0] != "ok":
+            continue
+        t = obs_trace(r[1][0].trace, n)
+        if isinstance(t, str) or M.trace_problem(t, n) is not None:
+            continue   # reported by check_msa above
+        if ctx.journal(json.dumps({"kind": "conv", "pal": e.pi, "seqs": seqs, "trace": t})):
+            b = Bat(ctx, e, seqs, t)
+            b.aln = r[1][0]
+            part_views(b)
+            part_terminal(b)
+            part_identity(b)
+            part_score(b)
+            part_fasta(b)
+            b.done()
+            ctx.count("many_row_alignments")
+
+
+REUSE_CASES = ("fasta_second_alignment", "fasta_refused_then_valid", "msa_twice_same_objects", "msa_refused_then_valid",
+               "cigar_refused_then_valid", "matrix_unchanged")
+
+
+def check_reuse(ctx, e, which):
+    """second use of an object / use after a documented refusal == use of a fresh object"""
+    import biotite.sequence.align as balign
+    from biotite.sequence.io import fasta
+
+    case = {"kind": "reuse", "pal": e.pi, "which": which}
+    ctx.ev(1, 1)
+
+    def bad(mode, what, exp=None, obs=None):
+        ctx.violation("reuse|%s|%s" % (which, mode), what, case, exp, obs)
+
+    s1, s2, s3 = e.letters("aab"), e.letters("ab"), e.letters("bab")
+    a1 = balign.Alignment([e.seq(s1), e.seq(s2)], np.array([[0, -1], [1, 0], [2, 1]]))
+    a2 = balign.Alignment([e.seq(s3), e.seq(s2)], np.array([[0, -1], [1, 0], [2, 1]]))
+    names = ["x", "y"]
+
+    def fasta_entries(aln, f=None):
+        f = f if f is not None else fasta.FastaFile()
+        fasta.set_alignment(f, aln, names)
+        buf = io.StringIO()
+        f.write(buf)
+        return list(f.items()), buf.getvalue(), f
+
+    if which == "fasta_second_alignment":
+        fresh = fasta_entries(a2)
+        _, _, f = fasta_entries(a1)
+        again = fasta_entries(a2, f)
+        if again[:2] != fresh[:2]:
+            bad("differs_from_fresh", "second set_alignment on the same file differs from a fresh file", fresh[:2], again[:2])
+        back = call(fasta.get_alignment, f, seq_type=e.cls)
+        if back[0] != "ok" or obs_trace(back[1].trace, 2) != ((0, -1), (1, 0), (2, 1)) or [str(x) for x in back[1].sequences] != [s3, s2]:
+            bad("read_back", "alignment read from the re-used file differs", [s3, s2], repr(back)[:200])
+    elif which == "fasta_refused_then_valid":
+        f = fasta.FastaFile()
+        r = call(fasta.set_alignment, f, a1, ["only_one"])
+        if r[0] == "ok":
+            bad("not_refused", "wrong number of names accepted")
+        if len(f) != 0:
+            bad("state_after_refusal", "a refused set_alignment left entries in the file", [], list(f.items()))
+        fresh = fasta_entries(a1)
+        again = fasta_entries(a1, f)
+        if again[:2] != fresh[:2]:
+            bad("differs_from_fresh", "valid call after a refusal differs from a fresh file", fresh[:2], again[:2])
+    elif which in ("msa_twice_same_objects", "msa_refused_then_valid", "matrix_unchanged"):
+        objs = [e.fresh(x) for x in (s1, s2, s3, s2)]
+        ref = balign.align_multiple([e.fresh(x) for x in (s1, s2, s3, s2)], e.mmat, gap_penalty=-2)
+        want = (ref[0].get_gapped_sequences(), ref[1].tolist())
+        mat_before = e.mmat.score_matrix().copy()
+        if which == "msa_refused_then_valid":
+            k = len(e.alphabet)
+            asym = e.mmat.score_matrix().copy()
+            asym[0, 1] += 1
+            r = call(balign.align_multiple, objs, balign.SubstitutionMatrix(e.alphabet, e.alphabet, asym), gap_penalty=-2)
+            if r[0] == "ok":
+                bad("not_refused", "asymmetric matrix accepted (documented: must be symmetric)")
+            r = call(balign.align_multiple, objs, e.mmat, gap_penalty="x")
+            if r[0] == "ok":
+                bad("not_refused", "gap penalty of type str accepted")
+            if [str(o) for o in objs] != [s1, s2, s3, s2]:
+                bad("state_after_refusal", "refused call changed the input sequences", [s1, s2, s3, s2], [str(o) for o in objs])
+        first = balign.align_multiple(objs, e.mmat, gap_penalty=-2)
+        second = balign.align_multiple(objs, e.mmat, gap_penalty=-2)
+        for label, res in (("first", first), ("second", second)):
+            got = (res[0].get_gapped_sequences(), res[1].tolist())
+            if got != want:
+                bad("differs_from_fresh_" + label, "call on re-used objects differs from a call on fresh objects", want, got)
+        if not np.array_equal(e.mmat.score_matrix(), mat_before):
+            bad("matrix_mutated", "align_multiple changed the substitution matrix")
+        sc = balign.score(first[0], e.mmat, -2)
+        if not np.array_equal(e.mmat.score_matrix(), mat_before) or sc != balign.score(second[0], e.mmat, -2):
+            bad("matrix_mutated_by_score", "score() changed the substitution matrix or depends on earlier calls")
+    elif which == "cigar_refused_then_valid":
+        r = call(balign.read_alignment_from_cigar, "1M1P1M", 0, e.seq(s1), e.seq(s2))
+        if r[0] == "ok":
+            bad("not_refused", "padding operation accepted (documented as not implemented)")
+        r = call(balign.read_alignment_from_cigar, "1D2M", 0, e.seq(s1), e.seq(s2))
+        if r[0] != "ok" or obs_trace(r[1].trace, 2) != ((0, -1), (1, 0), (2, 1)):
+            bad("differs_from_fresh", "valid CIGAR after a refused one is read wrongly", None, repr(r)[:200])
+        a3 = balign.Alignment([e.seq(s1), e.seq(s2), e.seq(s3)], np.array([[0, -1, -1], [1, 0, 0], [2, 1, 1], [-1, -1, 2]]))
+        r = call(balign.write_alignment_to_cigar, a3, 0, 1, include_terminal_gaps=True)   # column 3: gap in both rows
+        r2 = call(balign.write_alignment_to_cigar, a3, 0, 2, include_terminal_gaps=True)
+        if r2[0] != "ok" or r2[1] != "1D2M1I":
+            bad("differs_from_fresh", "valid CIGAR request after an inexpressible one is wrong", "1D2M1I", repr(r2)[:100])
+    else:
+        raise ValueError(which)
+
+
+def run_reuse(shard, ctx):
+    e = env(shard["pal"])
+    for which in REUSE_CASES:
+        if ctx.journal(json.dumps({"kind": "reuse", "pal": e.pi, "which": which})):
+            check_reuse(ctx, e, which)
+
+
+EDGE_LENS = ((2, 2), (1, 2), (1, 1, 1), (2, 1, 1), (2,))
+
+
+def run_edge(shard, ctx):
+    """traces without any column, for every letter assignment (the battery classifies what is undefined)"""
+    import biotite.sequence.align as balign
+
+    e = env(shard["pal"])
+    for lens in EDGE_LENS:
+        first = True
+        for ws in letter_words(lens):
+            seqs = [e.letters(w) for w in ws]
+            if ctx.journal(json.dumps({"kind": "conv", "pal": e.pi, "seqs": seqs, "trace": []})):
+                run_battery(ctx, e, seqs, (), ctx.tier, struct_level=first)
+            first = False
+    # an empty CIGAR: exception or an alignment without columns
+    for form, arg in (("str", ""), ("array", np.zeros((0, 2), dtype=np.int64)), ("list", [])):
+        ctx.ev(1, 1)
+        ctx.count("unspecified")
+        r = call(balign.read_alignment_from_cigar, arg, 0, e.seq(e.letters("ab")), e.seq(e.letters("b")))
+        if r[0] == "ok":
+            t = obs_trace(r[1].trace, 2)
+            if isinstance(t, str) or len(t):
+                ctx.violation("read_alignment_from_cigar|columns_from_empty_cigar|%s" % form, "an empty CIGAR produced columns",
+                              {"kind": "edge", "pal": e.pi}, "exception or no columns", t)
+
+
+ALPHA_SIZES = (254, 255, 256, 257)
+ALPHA_INPUTS = ([[0, 1, 2, 3], [0, 1, 3], [-1, 1, 2, 3, -1]], [[5, 5], [5, 5], [5]], [[-1, 0, -1], [0, -1]],
+                [[0, 1, 2], [3, 4, 5, 6], [1, 2]])
+
+
+def check_msa_alpha(ctx, case):
+    """align_multiple around the alphabet sizes at which the sequence code type changes (the neutral gap symbol
+    needs one more code than the matrix alphabet has symbols)"""
+    import biotite.sequence as bseq
+    import biotite.sequence.align as balign
+
+    K, Ks = case["matrix_symbols"], case["sequence_symbols"]
+    big = bseq.Alphabet(list(range(K)))
+    small = big if Ks == K else bseq.Alphabet(list(range(Ks)))
+    sc = np.full((K, K), -4, dtype=np.int32)
+    np.fill_diagonal(sc, 5)
+    mat = balign.SubstitutionMatrix(big, big, sc)
+    ins = [[(Ks - 1 if x == -1 else x) for x in row] for row in ALPHA_INPUTS[case["input"]]]
+    objs = [bseq.GeneralSequence(small, row) for row in ins]
+    n = len(ins)
+    kw = {"gap_penalty": -2}
+    if case["dist"]:
+        kw["distances"] = dist_matrix("chain", n)
+    ctx.ev(1, 1)
+    # the gap symbol gets the code K: representable in the code type of every sequence?
+    fits = all(K <= np.iinfo(o.code.dtype).max for o in objs)
+    r = call(balign.align_multiple, objs, mat, **kw)
+    if not fits:
+        ctx.count("unspecified")
+    else:
+        ctx.count("accepted")
+    cls = "gap_code_fits" if fits else "gap_code_exceeds_code_type"
+    if r[0] != "ok":
+        ctx.count("msa_alpha_raised")
+        if fits:
+            ctx.violation("align_multiple|raises_%s|alphabet_%s" % (r[1], cls), r[2], case, "alignment", list(r))
+        return
+    aln = r[1][0]
+    t = obs_trace(aln.trace, n)
+    got = [[int(x) for x in s_.symbols] for s_ in aln.sequences]
+    if got != ins:
+        ctx.violation("align_multiple|sequences_changed|alphabet_%s" % cls, "returned sequences differ from the inputs",
+                      case, ins, got)
+        return
+    if isinstance(t, str) or M.trace_problem(t, n, [len(x) for x in ins]) is not None or any(
+            [c[i] for c in t if c[i] != M.GAP] != list(range(len(ins[i]))) for i in range(n)):
+        ctx.violation("align_multiple|invalid_trace|alphabet_%s" % cls, "trace is not a valid global MSA trace", case,
+                      None, t if isinstance(t, str) else [list(c) for c in t])
+        return
+    if [[int(x) for x in o.symbols] for o in objs] != ins:
+        ctx.violation("align_multiple|inputs_mutated|alphabet_%s" % cls, "inputs changed", case)
+    ctx.outcome(("alpha", K, Ks, t))
+
+
+def run_msa_alpha(shard, ctx):
+    combos = [(K, K) for K in ALPHA_SIZES] + [(300, 200), (300, 256), (257, 256)]
+    for K, Ks in combos:
+        for inp in range(len(ALPHA_INPUTS)):
+            for dist in (shard["dist"],):
+                if dist is False and inp >= 2 and K not in (256, 300):
+                    continue   # default distances cost K^2 interpreter steps per pair: listed subset only
+                case = {"kind": "msa_alpha", "matrix_symbols": K, "sequence_symbols": Ks, "input": inp, "dist": dist, "pal": 0}
+                if ctx.journal(json.dumps(case)):
+                    check_msa_alpha(ctx, case)
+
+
 # ---------------------------------------------------------------------------
 # misuse
 # ---------------------------------------------------------------------------
@@ -1360,16 +1893,16 @@ def run_misuse(shard, ctx):
 # ---------------------------------------------------------------------------
 # shards
 # ---------------------------------------------------------------------------
-def _count_structs(lens, full_only=False):
+def _count_structs(lens, full_only=False, with_empty_trace=False):
     if full_only:
         return M.count_traces(lens)
-    return sum(1 for _ in structures(lens))
+    return sum(1 for _ in structures(lens, with_empty_trace=with_empty_trace))
 
 
 def shards(tier, seed):
     q = tier == "quick"
     pi = pal_for(seed)
-    allp = list(range(len(PALETTES)))
+    allp = list(range(N_SEED_PALETTES))
     out = []
 
     def fam(lens, pals, target, full_only=False):
@@ -1400,6 +1933,21 @@ def shards(tier, seed):
         for lens in triple_small:
             fam(lens, allp, 2500)
         fam((2, 2, 2), [pi], 2500)
+    # audit families (see notes/C11.md, dimension audit)
+    edge_lens = [(0, 1), (0, 2), (1, 0), (2, 0), (0, 1, 1), (1, 0, 2), (2, 1, 0), (1,), (2,), (3,)]
+    for p in ([pi] if q else allp):
+        for lens in edge_lens:
+            fam(lens, [p], 3000)
+        out.append({"kind": "edge", "pal": p})
+        out.append({"kind": "long", "pal": p})
+        out.append({"kind": "many", "pal": p})
+        out.append({"kind": "reuse", "pal": p})
+        for lens in ([(2, 2), (2, 1, 1)] if q else [(2, 2), (3, 2), (2, 1, 1), (2, 2, 1)]):
+            out.append({"kind": "flavour", "pal": p, "lens": list(lens)})
+    for lens in ([(2, 2), (2, 1)] if q else [(2, 2), (2, 1), (1, 2), (3, 2), (1, 1, 1)]):
+        out.append({"kind": "flavour", "pal": GEN_PAL, "lens": list(lens)})
+    out.append({"kind": "msa_alpha", "dist": False})
+    out.append({"kind": "msa_alpha", "dist": True})
     # cigar reader
     for p in ([pi] if q else allp):
         parts = 4 if q else 16
@@ -1440,7 +1988,8 @@ def shards(tier, seed):
         msa(5, "multiset", "tree", [pi], 128, maxlen=2, two_gaps=True, tree_half=True)
     out.append({"kind": "misuse", "pal": pi})
     # heaviest first
-    weight = {"msa": 0, "family": 1, "produced": 2, "cigar": 3, "misuse": 4}
+    weight = {"msa": 0, "family": 1, "produced": 2, "cigar": 3, "misuse": 4, "many": 2, "flavour": 2, "msa_alpha": 1,
+              "long": 3, "edge": 3, "reuse": 4}
     out.sort(key=lambda s: weight[s["kind"]])
     return out
 
@@ -1457,6 +2006,18 @@ def run_shard(shard, ctx):
         run_msa(shard, ctx)
     elif k == "misuse":
         run_misuse(shard, ctx)
+    elif k == "long":
+        run_long(shard, ctx)
+    elif k == "flavour":
+        run_flavour(shard, ctx)
+    elif k == "edge":
+        run_edge(shard, ctx)
+    elif k == "many":
+        run_many(shard, ctx)
+    elif k == "reuse":
+        run_reuse(shard, ctx)
+    elif k == "msa_alpha":
+        run_msa_alpha(shard, ctx)
     else:
         raise ValueError(shard)
 
@@ -1467,7 +2028,16 @@ def replay(case, ctx):
     k = case["kind"]
     e = env(case["pal"])
     if k == "conv":
-        run_battery(ctx, e, case["seqs"], [tuple(c) for c in case["trace"]], ctx.tier)
+        run_battery(ctx, e, case["seqs"], [tuple(c) for c in case["trace"]], ctx.tier,
+                    getitem=len(case["trace"]) <= 8, flavour=case.get("flavour", "int64"))
+    elif k == "argflav":
+        check_arg_flavours(ctx, e, case["seqs"], [tuple(c) for c in case["trace"]])
+    elif k == "reuse":
+        check_reuse(ctx, e, case["which"])
+    elif k == "msa_alpha":
+        check_msa_alpha(ctx, case)
+    elif k == "edge":
+        run_edge({"pal": case["pal"]}, ctx)
     elif k == "cigar_read":
         check_cigar_read(ctx, e, [tuple(x) for x in case["ops"]], case["position"], case["tail"])
     elif k == "produced":
